@@ -6,6 +6,7 @@ import InvProxy.Model.Seeker
 import InvProxy.Model.Dedup
 import InvProxy.Model.Inject
 import InvProxy.Model.ShimUrl
+import InvProxy.Model.Keys
 import InvProxy.Model.WsCodec
 import InvProxy.Model.Sessions
 import InvProxy.Model.Relay
@@ -148,6 +149,15 @@ def shimurlStep (_ : Unit) : List String → Unit × String
     match ShimUrl.route (unhexD pre) (unhexD p) with
     | .shim => ((), "shim")
     | .wrapped => ((), "wrapped")
+  | _ => ((), "bad-op")
+
+/-- suite `quote`: `q <hex>` → `%q` of the bytes | `key <fmt-hex> <a-hex> <b-hex>` → fmt.Sprintf(fmt, a, b) for two-verb formats -/
+def quoteStep (_ : Unit) : List String → Unit × String
+  | ["q", h] => ((), hexOf (Keys.quote (unhexD h)))
+  | ["key", f, a, b] =>
+    match Keys.parse2 (unhexD f) with
+    | some fm => ((), hexOf (fm.key (unhexD a) (unhexD b)))
+    | none => ((), "bad-format")
   | _ => ((), "bad-op")
 
 /-- suite `wscodec`: `ser t|b <hex>` (server→client serialisation) | `dec <shape> [<hex>]` (client→server decoding) -/
@@ -396,6 +406,7 @@ def main (args : List String) : IO UInt32 := do
   | ["wscodec"] => loop stdin stdout wscodecStep (); return 0
   | ["wsinject"] => loop stdin stdout wsinjectStep (); return 0
   | ["shimurl"] => loop stdin stdout shimurlStep (); return 0
+  | ["quote"] => loop stdin stdout quoteStep (); return 0
   | ["identity"] => loop stdin stdout identityStep (); return 0
   | ["banner"] => loop stdin stdout bannerStep (); return 0
   | ["splice"] => loop stdin stdout spliceStep []; return 0
